@@ -85,6 +85,21 @@ func (s *Server) MutateKV(f func(kv map[string]string)) {
 	s.cond.Broadcast()
 }
 
+// SetCatalogErr makes the catalog lookup of a service fail (500) or work again.
+// It does not bump an index: the registry's state is unchanged.
+func (s *Server) SetCatalogErr(name string, fail bool) {
+	s.mu.Lock()
+	if fail {
+		s.CatalogErr[name] = true
+	} else {
+		delete(s.CatalogErr, name)
+	}
+	s.mu.Unlock()
+}
+
+// Touch bumps the health index without changing anything (watchers wake up and re-read).
+func (s *Server) Touch() { s.Mutate(func() {}) }
+
 func (s *Server) SetNode(n Node) { s.Mutate(func() { c := n; s.nodes[n.Name] = &c }) }
 
 func (s *Server) SetInstance(in Instance) {
@@ -109,6 +124,9 @@ func (s *Server) Reset() {
 			delete(kv, k)
 		}
 	})
+	s.mu.Lock()
+	s.CatalogErr = map[string]bool{}
+	s.mu.Unlock()
 }
 
 // Quiesced reports whether both watchers have seen the current state: a
